@@ -12,7 +12,8 @@ import (
 // access logged per goroutine instance.  Obligation: no cell of any object that a goroutine did
 // not allocate itself is written by one instance and accessed by another (or by the spawning
 // goroutine before the join) -- i.e. no conflicting unsynchronised accesses under ANY
-// interleaving; and the join collects exactly one token per cell.
+// interleaving; the join collects every token; and every cell's results equal those of the cell
+// run alone, for every processor count 1..4 the runtime may report (schedule independence).
 //vsym:prop=C05 tier=quick ints=int floats=real timeout=60 wall=240 cut=3 unwind=80
 func H_C05_cells_MODELNAME() { c05cells_MODELNAME(3, 2, 2, 2) }
 
@@ -129,11 +130,17 @@ func c05cellsz_MODELNAME(N, nSets, nBlocks, T int, realRoot bool, concrete bool,
 		}
 		inputs = record.Slice([]int{0, 0, 1}, []int{nBlocks, nI, T}, nil).(data.ND3Float64)
 	}
+	params0, inputs0, states0, outputs0 := wrCopy2(params), wrCopy3(inputs), wrCopy2(states), wrCopy3(outputs)
 	vsym.LogStart()
 	w.m.Run(inputs, states, outputs)
 	vsym.LogStop()
 	vsym.Reach("after-run")
 	vsym.AssertNoRaces("no-conflicting-accesses-between-cell-goroutines")
-	vsym.Assert(vsym.Goroutines() == N, "one-goroutine-per-cell")
 	vsym.Assert(vsym.JoinBalance() == 0, "join-collects-every-token")
+	// schedule independence: whatever the number of goroutines and processors (the processor count
+	// reported by the runtime is an arbitrary value in 1..4 here, one path each), every cell's
+	// results are those of that cell run alone
+	if !(concrete || wrHeavy(name)) {
+		wrAssertCellsEqualSingle(name, w, params0, inputs0, states0, outputs0, states, outputs, N, nSets, nBlocks, T)
+	}
 }
